@@ -5,6 +5,7 @@ from __future__ import annotations
 
 import ast
 import dis
+import re
 from collections import Counter
 
 from numba_scfg.core.datastructures.basic_block import (
@@ -85,18 +86,20 @@ def check_drawing(scfg, source, renderer, bcmap=None):
         raise M.Viol("D-backedges", f"dashed edges: missing {sorted((exp_d - dashed).items())[:3]}, extra {sorted((dashed - exp_d).items())[:3]}")
     for n, b in flat.blocks.items():
         label = nodes[n][1].get("label", "")
+        # DOT line-break escapes are separators, not text
+        label = label.replace("\\l", "\n").replace("\\n", "\n").replace("\\r", "\n")
         if n not in label:
             raise M.Viol("D-label-name", f"label of {n} lacks its name: {label!r}")
         if isinstance(b, SyntheticBranch):
-            arrow = " → " if renderer == "scfg" else "=>"
             if b.variable not in label:
                 raise M.Viol("D-label-var", f"label of {n} lacks control variable {b.variable}")
             for k, v in b.branch_value_table.items():
-                if f"{k}{arrow}{v}" not in label:
-                    raise M.Viol("D-label-table", f"label of {n} lacks table entry {k}{arrow}{v}: {label!r}")
+                # "<key> <some arrow> <target>": the arrow's spelling is the renderer's choice
+                if not re.search(rf"(?<![\w-]){k}\s*[^\w\s\\]{{1,3}}\s*{re.escape(v)}(?!\w)", label):
+                    raise M.Viol("D-label-table", f"label of {n} lacks table entry {k} -> {v}: {label!r}")
         elif isinstance(b, SyntheticAssignment):
             for k, v in b.variable_assignment.items():
-                if f"{k} = {v}" not in label:
+                if not re.search(rf"{re.escape(k)}\s*[^\w\s\\]{{1,2}}\s*{v}(?!\w)", label):
                     raise M.Viol("D-label-assign", f"label of {n} lacks {k} = {v}")
         elif isinstance(b, PythonASTBlock):
             for stmt in b.tree:
@@ -104,7 +107,7 @@ def check_drawing(scfg, source, renderer, bcmap=None):
                     raise M.Viol("D-label-ast", f"label of {n} lacks statement {ast.unparse(stmt)!r}: {label!r}")
         elif isinstance(b, PythonBytecodeBlock) and renderer == "byteflow" and bcmap is not None:
             for off, inst in bcmap.items():
-                if b.begin <= off < b.end and f"{off:3}: {inst.opname}" not in label:
+                if b.begin <= off < b.end and not re.search(rf"(?<!\d){off}\s*:\s*{inst.opname}(?!\w)", label):
                     raise M.Viol("D-label-bytecode", f"label of {n} lacks '{off}: {inst.opname}'")
     return deep
 
